@@ -280,6 +280,8 @@ def _seed_packets():
         'lp-empty': net.lp_wrap(None),
         'lp-nack-no-fragment': net.lp_wrap(None, nack_reason=50),
         'lp-fragmented': net.lp_wrap(data[:20], frag_index=0, frag_count=2),
+        'data-no-content': net.data_wire(n1, content=None),
+        'lp-data-no-content': net.lp_wrap(net.data_wire(n1, content=None), pit_token=b'\x07'),
         'lp-fragment-garbage': net.lp_wrap(b'\x99\x01\x00'),
         'lp-fragment-empty': net.lp_wrap(b''),
         'unknown-type': T.enc_tlv(0x99, b'abc'),
@@ -305,7 +307,7 @@ def _input_spec():
                                      'muts': st.lists(M.mutation_spec(), min_size=1, max_size=3)})
     wide = st.fixed_dictionaries({'fam': st.just('mutated'), 'seed': st.sampled_from(sorted(SEEDS)),
                                   'muts': st.lists(M.mutation_spec(['num-wide']), min_size=1, max_size=1)})
-    near = st.fixed_dictionaries({'fam': st.just('near-bystander'), 'i': st.integers(0, 2), 'k': st.integers(0, 4)})
+    near = st.fixed_dictionaries({'fam': st.just('near-bystander'), 'i': st.integers(0, 2), 'k': st.integers(0, 9)})
     return st.one_of(raw, raw_framed, raw_framed, seed, mutated, mutated, mutated, mutated, near, wide)
 
 
@@ -316,7 +318,7 @@ def build_input(spec):
         # Data with a LONGER name than a pending Interest that has no CanBePrefix, Data for the parent, a Nack for a
         # longer name, an Interest for the parent of the handlers' prefixes
         i = spec['i']
-        k = spec['k'] % 5
+        k = spec['k'] % 10
         if k == 0:
             return net.data_wire([KEEP, net.comp(f'p{i}'), net.comp('x')], content=b'longer')
         if k == 1:
@@ -325,7 +327,14 @@ def build_input(spec):
             return net.lp_wrap(net.interest_wire([KEEP, net.comp(f'p{i}'), net.comp('x')], nonce=4), nack_reason=150)
         if k == 3:
             return net.interest_wire([KEEP], nonce=5)
-        return net.data_wire([KEEP, net.comp(f'p{i}x')], content=b'sibling')
+        if k == 4:
+            return net.data_wire([KEEP, net.comp(f'p{i}x')], content=b'sibling')
+        # a packet carrying fragmentation headers (any value, 0 included) is a fragment - not handed on - even when its payload
+        # happens to be a complete Data for a pending Interest / Interest for a handler
+        inner = net.data_wire([KEEP, net.comp(f'p{i}')], content=b'fragment?') if k % 2 else \
+            net.interest_wire([KEEP, net.comp(f'h{i}'), net.comp('frag')], nonce=6)
+        fi, fc = [(0, None), (None, 0), (0, 0), (0, 1), (1, None)][(k - 5) % 5]
+        return net.lp_wrap(inner, frag_index=fi, frag_count=fc)
     if fam == 'random':
         return bytes.fromhex(spec['hex'])
     if fam == 'random-framed':
@@ -415,6 +424,9 @@ def run_robust(case):
                 if _outcome_label(h) != 'data':
                     r.bad(f'C06/{target}/bystander-interest-broken/{_outcome_label(h)}', f'{nm}')
                     break
+            if hcalls:
+                r.bad(f'C06/{target}/bystander-handler-called-by-input', f'handlers {hcalls} were invoked by inputs none of which is a '
+                      f'complete Interest under their prefixes')
             for i in range(case['n_handlers']):
                 before = len(hcalls)
                 sim.deliver(_in_buf(net.interest_wire([KEEP, net.comp(f'h{i}'), net.comp('q')], nonce=3), case.get('buf', 0)), 'task')
